@@ -44,12 +44,24 @@ func (c *connection) onHup(p Poll) error {
 		// Input that nobody has been started for yet (it arrived before SetOnRequest
 		// installed the handler, or a handler task has just exited) is offered to the
 		// handler first; its task runs the close callbacks when it exits.
-		if handler, ok := onRequest.(OnRequest); ok && c.inputBuffer.Len() > 0 &&
-			(onConnect == nil || c.getState() != connStateNone) && c.onProcess(nil, handler) {
+	OFFER:
+		handler, ok := onRequest.(OnRequest)
+		offer := ok && c.inputBuffer.Len() > 0 && (onConnect == nil || c.getState() != connStateNone)
+		if offer && c.onProcess(nil, handler) {
 			return nil
 		}
 		// already PollDetach when call OnHup
-		c.closeCallback(true, false)
+		if !c.lock(processing) {
+			// the running task runs the close callbacks when it exits
+			return nil
+		}
+		if offer {
+			// The task that kept onProcess from starting has released the lock since: it may
+			// have exited without seeing the input, so the offer is made again.
+			c.unlock(processing)
+			goto OFFER
+		}
+		c.closeCallback(false, false)
 	}
 	return nil
 }
